@@ -43,6 +43,8 @@ def flux_factor(repo, frm, to):
 
 
 def run(chk, repo, tier):
+    from .common import no_hidden_state
+    no_hidden_state(chk, repo, 'C14')
     chk.clause('C14-a', 'wavelength factors: identity, closure over all 64 triples, SI anchors, aliases', 4 + 64 + 4 + 3)
     chk.clause('C14-b', 'flux conversions: identity, closure over all 27 triples, two anchors', 3 + 27 + 2)
     chk.clause('C14-c', 'Spectrum.to: densities divided by the factor the wavelengths are multiplied by; '
@@ -173,6 +175,17 @@ def run(chk, repo, tier):
         elif 'value' in stores and 'wave' not in stores and 'valueunit' not in stores:
             ok_none = False
             det_none = f'values rewritten without the wavelengths [{cs}]'
+    # every conversion factor is looked up inside the loop, after earlier arguments have updated the units
+    stale = []
+    for pth in paths:
+        for e in pth.events:
+            if e.kind == 'call' and e.depth == 0 and not e.in_loop and \
+                    (e.data.get('callee') in ('method:to', 'radiometry.Meter.to') or str(e.data.get('callee', '')).endswith('.to')) \
+                    and e.data.get('callee') != fto.key:
+                stale.append(e.loc())
+    chk.ob('C14-c', 'D-freshness', fto.key, 'unit factors are evaluated per argument (not once before the loop)', not stale,
+           f'conversion factor computed before the loop at {sorted(set(stale))}: it is stale once an earlier argument changed the unit'
+           if stale else 'all factor look-ups are inside the loop', fto.loc())
     chk.ob('C14-c', 'N-reciprocal', fto.key, 'density branch', ok_w and n_w > 0,
            det_w or 'value is divided by exactly the factor that multiplies wave', fto.loc())
     chk.ob('C14-c', 'D-untouched', fto.key, 'unitless branch', ok_none and n_none > 0,
